@@ -423,7 +423,7 @@ func (r *Runner) Step(ev M) error {
 		res = J{"ok": true, "lists": r.W.ListQueries(mBool(ev, "full"))}
 	case "ExportImport":
 		var nw *World
-		res, nw = r.W.ExportImport()
+		res, nw = r.W.ExportImportMutated(mStr(ev, "mutate"))
 		if nw != nil {
 			// from now on: r.W = the re-imported chain, r.Orig = the original, stepped in lockstep
 			if r.Orig != nil {
